@@ -178,16 +178,6 @@ Definition set_ol_stack x s := mkSt (cur s) (rv s) (vlen s) (rprefix s) (plen s)
 Definition push (c : byte) (s : st) : st := set_v (c :: rv s) (vlen s + 1) s.
 (* self.v.extend(&self.prefix) *)
 Definition extend_prefix (s : st) : st := set_v (rprefix s ++ rv s) (vlen s + plen s) s.
-(* self.v.extend(rtrim_slice(&self.prefix)): strings::rtrim_slice drops the trailing isspace bytes,
-   i.e. the leading ones of the reversed prefix *)
-Fixpoint drop_isspace (b : bytes) : bytes :=
-  match b with
-  | c :: r => if isspace c then drop_isspace r else b
-  | [] => []
-  end.
-Definition extend_prefix_rtrim (s : st) : st :=
-  let p := drop_isspace (rprefix s) in
-  set_v (p ++ rv s) (vlen s + N.of_nat (List.length p)) s.
 (* self.v.extend(bytes), bytes given in forward order *)
 Definition extend (b : bytes) (s : st) : st := set_v (rev_append b (rv s)) (vlen s + N.of_nat (List.length b)) s.
 
@@ -224,9 +214,8 @@ Fixpoint flush_loop (n : nat) (look : bytes) (s : st) : st :=
       | c :: r =>
         if beqb c x0a then (r, s)                       (* k -= 1 *)
         else (look,
-              (* self.v.last() == Some(&b'\n'): this newline makes a blank line *)
-              let s0 := match rv s with l :: _ => if beqb l x0a then extend_prefix_rtrim s else s | [] => s end in
-              let s' := push x0a s0 in if 1 <? need_cr s then extend_prefix s' else s')
+              (* self.v.last() == Some(&b'\n'): this newline ends an empty line, the blank line gets the prefix *)
+              push x0a (match rv s with l :: _ => if beqb l x0a then extend_prefix s else s | [] => s end))
       end in
     let s2 := set_need_cr (need_cr s1 - 1)
               (set_begin_content true (set_begin_line true (set_last_breakable 0 (set_column 0 s1)))) in
